@@ -815,11 +815,20 @@ def _pick(rng, strs):
 REGULARS = [(b"x-r", b"1"), (b"content-length", b"0"), (b"transfer-encoding", b"trailers"), (b"cookie", b"a=b")]
 
 
-def expand_sequence(seq, kind, completed, variant=0):
+def expand_sequence(seq, kind, completed, variant=0, empty_occurrence=None):
+    """empty_occurrence = 0 / 1: a pseudo-header that occurs more than once gets an empty value at its first / second
+    occurrence (a duplicate is a duplicate whatever the values are)"""
     v = VKIND[kind]
     hdrs = []
     reg = REGULARS[variant % len(REGULARS)]
+    seen_count = {}
     for t in seq:
+        if empty_occurrence is not None and t <= 6 and list(seq).count(t) > 1:
+            n = seen_count.get(t, 0)
+            seen_count[t] = n + 1
+            if n == empty_occurrence:
+                hdrs.append((TOKEN_HEADER[t][0], b""))
+                continue
         if t == 7 and variant % len(REGULARS):
             hdrs.append(reg)
         elif t == 8:
@@ -854,6 +863,11 @@ def gen_seqs(batch, res):
                 enc = ("lsq", "lit", "dyn")[i % 3]
                 run_case(res, kind, expand_sequence(seq, kind, completed), enc)
                 res.count("sequence_cases")
+                if any(t <= 6 and list(seq).count(t) > 1 for t in seq):
+                    for eo in (0, 1):
+                        run_case(res, kind, expand_sequence(seq, kind, completed, 0, empty_occurrence=eo), ("lsq", "lit", "dyn")[(i + eo) % 3])
+                        res.count("sequence_cases")
+                        res.count("sequence_cases_repeated_pseudo_with_empty_value")
                 if 7 in seq or 8 in seq:
                     # the same sequence with a specially handled regular field in place of the arbitrary one
                     # (a repeated content-length is a different defect class: skip sequences that would repeat it)
